@@ -354,8 +354,8 @@ Fixpoint erase_rows (n : nat) (s : st) (y sx sy ex ey : Z) : result st :=
       erase_rows k s' (y + 1) sx sy ex ey
   end.
 Definition erase (s : st) (st_ en : Z * Z) : result st :=
-  let '(sx, sy) := constrain s (fst st_) (snd st_) 0 in
-  let '(ex, ey) := constrain s (fst en) (snd en) 0 in
+  let '(sx, sy) := constrain s (fst st_) (snd st_) 1 in       (* ignore_scrolling=True *)
+  let '(ex, ey) := constrain s (fst en) (snd en) 1 in
   if sy =? ey then set_cells s sy sx (ex + 1)
   else erase_rows (Z.to_nat (ey - sy + 1)) s sy sx sy ex ey.
 
@@ -545,7 +545,10 @@ Definition csi_get_device_attributes (s : st) (qmark : bool) : st := if qmark th
 (* TermCanvas.csi_status_report(mode) *)
 Definition csi_status_report (s : st) (mode : Z) : st :=
   if mode =? 5 then respond s reply_ok
-  else if mode =? 6 then respond s (reply_cpr (snd (cur s) + 1) (fst (cur s) + 1))
+  else if mode =? 6 then
+    (* origin mode: rows are reported relative to the top margin *)
+    let y := if m_constrain (modes s) then snd (cur s) - sr_start s else snd (cur s) in
+    respond s (reply_cpr (y + 1) (fst (cur s) + 1))
   else s.
 
 (* TermCanvas.csi_erase_line(mode) *)
